@@ -653,16 +653,7 @@ func c01(c *core.Ctx) {
 			}
 			c.Check(shortFn(fn)+":execute≺Finalize≺GetTxsProduct≺Seal", "order", ok, fn.Pos(), "%s runs %s, then Finalize, then seals the product", shortFn(fn), pr[1])
 		}
-		f := c.Fn(cons + ".BlockAssembler.Finalize")
-		cv := core.CallsIn(f, c.FuncObj("chain/transaction.ChangeVotesByBalance"))
-		mg := core.CallsIn(f, c.Method("chain/account.Manager", "MergeChangeLogs"))
-		fi := core.CallsIn(f, c.Method("chain/account.Manager", "Finalise"))
-		ok := len(cv) == 1 && len(mg) == 1 && len(fi) == 1 && core.Dominates(cv[0], mg[0]) && core.Dominates(mg[0], fi[0])
-		c.Check("Finalize:ChangeVotesByBalance≺MergeChangeLogs≺Finalise", "order", ok, f.Pos(), "the votes pass runs before the logs are merged and the merged logs are final before versions are assigned")
-		if len(fi) == 1 {
-			h, why := core.CallHeeded(fi[0], core.ErrNonNil, nil)
-			c.Check("Finalize→Finalise", "heeded-guard", h, fi[0].Pos(), "a failing Finalise fails Finalize: %s", orOK(why))
-		}
+		c01FinalizeOrder(c)
 		// premise of the map-order exemption of ChangeVotesByBalance (see mapLoopTable): the per-voter VotesLogs of one candidate are
 		// merged into one log, so the order in which the voters were visited does not reach the block's change-log root
 		nm := c.Fn("chain/account.needMerge")
@@ -1263,4 +1254,20 @@ func globalWritesIn(fn *ssa.Function) map[*ssa.Global][]ssa.Instruction {
 		}
 	}
 	return out
+}
+
+// c01FinalizeOrder: Finalize runs the votes pass, then merges the change logs, then finalises the accounts (evaluated under C01.2 and,
+// because the ranking takes one merged VotesLog per candidate, under C10.3).
+func c01FinalizeOrder(c *core.Ctx) {
+	const cons = "chain/consensus"
+	f := c.Fn(cons + ".BlockAssembler.Finalize")
+	cv := core.CallsIn(f, c.FuncObj("chain/transaction.ChangeVotesByBalance"))
+	mg := core.CallsIn(f, c.Method("chain/account.Manager", "MergeChangeLogs"))
+	fi := core.CallsIn(f, c.Method("chain/account.Manager", "Finalise"))
+	ok := len(cv) == 1 && len(mg) == 1 && len(fi) == 1 && core.Dominates(cv[0], mg[0]) && core.Dominates(mg[0], fi[0])
+	c.Check("Finalize:ChangeVotesByBalance≺MergeChangeLogs≺Finalise", "order", ok, f.Pos(), "the votes pass runs before the logs are merged and the merged logs are final before versions are assigned")
+	if len(fi) == 1 {
+		h, why := core.CallHeeded(fi[0], core.ErrNonNil, nil)
+		c.Check("Finalize→Finalise", "heeded-guard", h, fi[0].Pos(), "a failing Finalise fails Finalize: %s", orOK(why))
+	}
 }
